@@ -27,6 +27,15 @@ func domain(format string, args ...any) error {
 	return fmt.Errorf("%w: %s", ErrDomain, fmt.Sprintf(format, args...))
 }
 
+// ErrMagnitude marks the domain errors that are about size: an integer or
+// float result (or operand) so large that the engine's int64/float64
+// arithmetic wraps around or rounds. The language does not define that.
+var ErrMagnitude = errors.New("magnitude beyond exact arithmetic")
+
+func magnitude(format string, args ...any) error {
+	return fmt.Errorf("%w: %w: %s", ErrDomain, ErrMagnitude, fmt.Sprintf(format, args...))
+}
+
 const intBound = int64(1) << 40 // keep all arithmetic far from overflow / float inexactness
 
 type Env struct {
@@ -88,14 +97,14 @@ func asciiLower(s string) string {
 
 func checkInt(v int64) (int64, error) {
 	if v > intBound || v < -intBound {
-		return 0, domain("integer magnitude beyond 2^40")
+		return 0, magnitude("integer magnitude beyond 2^40")
 	}
 	return v, nil
 }
 
 func checkFloat(v float64) (float64, error) {
 	if math.IsNaN(v) || math.IsInf(v, 0) || math.Abs(v) > float64(intBound) {
-		return 0, domain("float magnitude")
+		return 0, magnitude("float magnitude")
 	}
 	return v, nil
 }
@@ -184,7 +193,7 @@ func arith(op string, a, b any) (any, error) {
 			return checkInt(ai - bi)
 		case "*":
 			if ai != 0 && bi != 0 && (abs64(ai) > intBound/abs64(bi)) {
-				return nil, domain("integer overflow")
+				return nil, magnitude("integer overflow")
 			}
 			return checkInt(ai * bi)
 		case "/":
